@@ -288,6 +288,9 @@ func c32RunReal(c c32RealCase) (res verifkit.Result) {
 					labels["cached-failure"] = true
 				default:
 					if contacted != 1 {
+						if resp != nil && preReset[resp.Status] {
+							return verifkit.Fail("stale:status-from-before-reset", "op %d: request after ResetPingCache answered with %q without asking backend %d: that status was obtained before the reset", oi, resp.Status, j)
+						}
 						return verifkit.Fail("fetch:backend-skipped", "op %d: backend %d has nothing cached for protocol %d / route generation %d and every earlier backend failed, but it was not asked (answer %v, err %v)", oi, j, p, op.RouteGen, c32Status(resp), err)
 					}
 					b := backends[j]
